@@ -448,7 +448,8 @@ def compute_form_action(form, coefficient):
     fs = u.ufl_function_space()
     if coefficient is None:
         coefficient = Coefficient(fs)
-    elif coefficient.ufl_function_space() != fs:
+    elif hasattr(coefficient, "ufl_function_space") and coefficient.ufl_function_space() != fs:
+        # (`coefficient` may be any expression, e.g. the derivative of a Coefficient)
         logger.debug("Computing action of form on a coefficient in a different function space.")
     return replace(form, {u: coefficient})
 
